@@ -405,6 +405,15 @@ def recv_validate(ctx, trace_file, only, name="TraceRecv"):
     return total
 
 
+def send_validate(ctx, trace_file, only, name="TraceSend"):
+    """(C) the outbound message pipeline: msgWriter events and frames of a per-connection hook trace against TraceSend.tla."""
+    if not os.path.exists(trace_file) or os.path.getsize(trace_file) == 0:
+        return 0
+    rej, n = trace_validate(ctx, "TraceSend", "TraceSend.cfg", trace_file, name=name)
+    absorb_rejections(ctx, rej, "TraceSend", trace_file, only=only)
+    return n
+
+
 def split_by_conn(src, dst):
     """Regroup a global-order hook trace per connection (order within a connection kept), TraceReset between."""
     by, order = {}, []
@@ -449,6 +458,7 @@ def repo_tests_traced(ctx, only_conn, only_pool=None):
     rej, _ = trace_validate(ctx, "TraceConn", "TraceConn.loose.cfg", per, name="TraceConn(repo tests)")
     absorb_rejections(ctx, rej, "TraceConn", per, only=only_conn)
     recv_validate(ctx, per, only_conn, name="TraceRecv(repo tests)")
+    send_validate(ctx, per, only_conn, name="TraceSend(repo tests)")
     if only_pool is not None:
         glob_ = ctx.path("repotests-global.ndjson")
         with open(glob_, "w") as f:
